@@ -15,8 +15,9 @@ Executable, import-free.  Mirrors, statement by statement,
 * `_applyCommand` (`submit`), `_checkCommandsToApply` (`checkCommands`), the `apply_command` /
   `apply_command_response` handlers, `__onLeaderChanged`, `__callErrCallback`
 * `__changeCluster`, `__doChangeCluster`, `__parseChangeClusterRequest`, `_removeNodeFromCluster`
-  (admin path), `__updateClusterConfiguration` (snapshot restore of the member set), the
-  re-application of a membership entry at commit time in `__doApplyCommand` (`reapplyAtCommit`).
+  (admin path), `__updateClusterConfiguration` (snapshot restore of the member set), the application of a
+  membership entry in `__doApplyCommand` (`reapplyAtCommit`: a no-op since repair D6), the start-up fold of the
+  journal's membership entries (`journalFold`), the cluster written into a dump (`clusterAt`, repair D63).
 
 A command is `(kind, id, size)`; `size` is the byte length of the command string (type byte included),
 `ovh` is the pickle overhead δ of the log entry holding it: `len(pickle.dumps(entry)) = size + ovh`
@@ -497,15 +498,33 @@ def restoreSnapshot (s : Node) (prevE lastE : Entry) (cluster : List Nat) (dyn :
   if dyn then updateClusterConfiguration s1 (cluster.filter (fun n => s.self ≠ some n))
   else .ok (s1, [])
 
-/-- `__doApplyCommand` on a membership entry: re-application at commit time (defect D6: see
-`PSO/Proofs/NodeSendMembership.lean`) -/
-def reapplyAtCommit (s : Node) (e : Entry) : Except Err (Node × List Out) :=
-  match parseChange e.cmd.kind with
-  | none => .ok (s, [])
-  | some k =>
-    match doChange s k false with
-    | .error err => .error err
-    | .ok (s1, _, o) => .ok (s1, o)
+/-- `__doApplyCommand` on a membership entry (repair D6): the entry is skipped like NO_OP — cluster changes take
+effect when they enter the log, applying them again would undo a later change already in the log -/
+def reapplyAtCommit (s : Node) (_e : Entry) : Except Err (Node × List Out) := .ok (s, [])
+
+/-- first tick after a start (`_onTick`, `__needLoadDumpFile` block, repair D6): every membership entry of the
+journal is carried out on the member set the node was started with -/
+def journalFold (dyn : Bool) (s : Node) : Except Err (Node × List Out) :=
+  if dyn then
+    match s.log with
+    | [] => .error .indexError                      -- self.__raftLog[0]
+    | _ :: _ => applyChanges s false s.log
+  else .ok (s, [])
+
+/-- one step of taking a later entry's change back out of the dump's cluster (repair D63):
+`add X` → `cluster.discard(X)`, `rem X` → `cluster.add(X)`, entries naming the node itself skipped -/
+def unStep (self : Option Nat) (c : List Nat) (k : Kind) : List Nat :=
+  match k with
+  | .add n => if self = some n then c else c.filter (fun x => x != n)
+  | .rem n => if self = some n then c else if c.contains n then c else c ++ [n]
+  | _ => c
+
+/-- the cluster `__tryLogCompaction` writes into a dump labelled with `lastApplied` (repair D63):
+`otherNodes | {self}` with the changes of all entries after `lastApplied` taken back out, last entry first -/
+def clusterAt (self : Option Nat) (members : List Nat) (log : List Entry) (lastApplied : Nat) : Option (List Nat) :=
+  match getEntries log (some (lastApplied + 1)) none none with
+  | none => none
+  | some es => some (es.reverse.foldl (fun c e => unStep self c e.cmd.kind) (members ++ self.toList))
 
 /-- `_removeNodeFromCluster` (admin message): removing the node itself is denied before anything is queued -/
 def adminRemoveDenied (s : Node) (n : Nat) : Bool := decide (s.self = some n)
@@ -671,22 +690,52 @@ structure AppendMsg where
   entries  : List Entry := []
   chunk    : Option (Label × List PByte) := none
 
-/-- from `if 'prevLogIdx' in message:` to the `next_node_idx` reply.  The state is returned also when
-an exception escapes (the buffer assignment of a failing `finish` stays). -/
+/-- chunk reassembly of the `append_entries` handler: `ok none` = the handler returned after the chunk reply,
+`ok (some es)` = the entries to merge.  The state is returned also when an exception escapes (the buffer
+assignment of a failing `finish` stays). -/
+def faChunk (s : Node) (m : AppendMsg) : Node × Except Err (Option (List Entry)) :=
+  match m.chunk with
+  | none => (s, .ok (some m.entries))
+  | some (l, data) =>
+    match recvChunk s.recvBuf l data with
+    | .error e => (s, .error e)
+    | .ok (buf', none) => ({ s with recvBuf := buf' }, .ok none)
+    | .ok (_, some bytes) =>
+      match unpickleEntry bytes with
+      | none => ({ s with recvBuf := some bytes }, .error .unpickle)
+      | some e => ({ s with recvBuf := none }, .ok (some [e]))
+
+/-- after the prev check: keep matching entries, roll back + delete a conflicting suffix, append, apply the
+membership entries, acknowledge -/
+def faMerge (cfg : Conf) (s0 : Node) (src prevIdx : Nat) (prest newEntries : List Entry) : Node × Except Err (List Out) :=
+  let lastNew := prevIdx + newEntries.length
+  let matched := matchedCount prest newEntries
+  let new' := newEntries.drop matched
+  let old' := prest.drop matched                      -- prevEntries[matched:][1:]
+  -- rollback + truncate
+  let r1 : Except Err (Node × List Out) :=
+    if old' ≠ [] ∧ new' ≠ [] then
+      let rb := if cfg.dynMember then applyChanges s0 true old'.reverse else .ok (s0, [])
+      match rb with
+      | .error e => .error e
+      | .ok (s1, o1) =>
+        match deleteFrom s1.log (prevIdx + matched + 1) with
+        | none => .error .indexError
+        | some log' => .ok ({ s1 with log := log' }, o1)
+    else .ok (s0, [])
+  match r1 with
+  | .error e => (s0, .error e)
+  | .ok (s1, o1) =>
+    let s2 := { s1 with log := s1.log ++ new' }
+    let r2 := if cfg.dynMember then applyChanges s2 false new' else .ok (s2, [])
+    match r2 with
+    | .error e => (s2, .error e)
+    | .ok (s3, o2) =>
+      (s3, .ok (o1 ++ o2 ++ [.send src (.nextNodeIdx (lastNew + 1) false true s3.term)]))
+
+/-- from `if 'prevLogIdx' in message:` to the `next_node_idx` reply. -/
 def followerAppend (cfg : Conf) (s : Node) (src : Nat) (m : AppendMsg) : Node × Except Err (List Out) :=
-  -- chunk reassembly
-  let pre : Node × Except Err (Option (List Entry)) :=        -- ok none = returned after the chunk reply
-    match m.chunk with
-    | none => (s, .ok (some m.entries))
-    | some (l, data) =>
-      match recvChunk s.recvBuf l data with
-      | .error e => (s, .error e)
-      | .ok (buf', none) => ({ s with recvBuf := buf' }, .ok none)
-      | .ok (_, some bytes) =>
-        match unpickleEntry bytes with
-        | none => ({ s with recvBuf := some bytes }, .error .unpickle)
-        | some e => ({ s with recvBuf := none }, .ok (some [e]))
-  match pre with
+  match faChunk s m with
   | (s0, .error e) => (s0, .error e)
   | (s0, .ok none) =>
     match lastIdx? s0.log with
@@ -703,31 +752,7 @@ def followerAppend (cfg : Conf) (s : Node) (src : Nat) (m : AppendMsg) : Node ×
       let prevIdx := (m.prev.map (·.1)).getD 0
       let prevTerm := (m.prev.map (·.2)).getD 0
       if p0.term ≠ prevTerm then (s0, .ok [.send src (.nextNodeIdx prevIdx true false s0.term)])
-      else
-        let lastNew := prevIdx + newEntries.length
-        let matched := matchedCount prest newEntries
-        let new' := newEntries.drop matched
-        let old' := prest.drop matched                      -- prevEntries[matched:][1:]
-        -- rollback + truncate
-        let r1 : Except Err (Node × List Out) :=
-          if old' ≠ [] ∧ new' ≠ [] then
-            let rb := if cfg.dynMember then applyChanges s0 true old'.reverse else .ok (s0, [])
-            match rb with
-            | .error e => .error e
-            | .ok (s1, o1) =>
-              match deleteFrom s1.log (prevIdx + matched + 1) with
-              | none => .error .indexError
-              | some log' => .ok ({ s1 with log := log' }, o1)
-          else .ok (s0, [])
-        match r1 with
-        | .error e => (s0, .error e)
-        | .ok (s1, o1) =>
-          let s2 := { s1 with log := s1.log ++ new' }
-          let r2 := if cfg.dynMember then applyChanges s2 false new' else .ok (s2, [])
-          match r2 with
-          | .error e => (s2, .error e)
-          | .ok (s3, o2) =>
-            (s3, .ok (o1 ++ o2 ++ [.send src (.nextNodeIdx (lastNew + 1) false true s3.term)]))
+      else faMerge cfg s0 src prevIdx prest newEntries
 
 /-- the `AppendMsg` a follower sees for a wire message of the send loop -/
 def toAppendMsg : Msg → Option AppendMsg
